@@ -26,6 +26,11 @@ CLAIMED = {
         technique="TLA+ spec PeerRegistry checked exhaustively by TLC (complete graph, 3 peers x 3 keys); every edge and all paths to depth 6/7 replayed on the real registry; sequential and concurrent histories checked for linearizability by TLC trace validation with silent linearization steps",
         text="TLC computes the complete reachable graph of the registry model for 3 peers and 3 keys (302 states, every state within 7 steps) with IndexConsistent, LookupSound and the step properties RemoveOnlyOwn / AliasMoves. Every edge is replayed on the real PeerRegistry from a shortest path and every mutator/broadcast path up to depth 6 (quick) or 7 (thorough) is walked, comparing get, get_by, key_for, aliases_for, len, peers in every state and counting broadcast deliveries with capturing sinks. Long sequential and 2-4 thread concurrent histories are accepted only if TLC finds a linearization against the same sequential model.",
         note="Trusts TLC and the harness' capturing sinks. The implementation has no state beyond the three maps, so graph closure at depth 7 covers the property's length-10 sequences. Concurrent interleavings are those the OS scheduler produced."),
+    "C14": dict(
+        category="model_checking", design_ref="DESIGN.md §5 C14",
+        technique="TLA+ spec Registry (flat JSON node set + callables) and Pointer (RFC 6901) checked by TLC in a small scope; TLC graph replayed on the real Registry directly and through a Router mount; random sequential and concurrent histories checked for linearizability by TLC trace validation",
+        text="TLC exhausts registrations, merges, reads, writes and calls over 6 pointers and 3 values (TreeShaped, ReadYourWrite, Frame, RootMerge, ReadPure, CallExactlyOnce as step properties). The graph of a reduced scope is replayed on a real Registry (every edge, all paths to depth 4/5), both directly and through Router::with_registry under a prefix, comparing each result and a read of every probe pointer. Random 100-operation histories and up-to-4-thread concurrent histories over pointers with escapes, empty tokens, array indices and deep nesting are accepted only if TLC finds a linearization in the same model, and every logged pointer is re-tokenised by the TLA+ Pointer module.",
+        note="Trusts TLC, serde_json for value fidelity and the harness' flat-node conversion. '/' is modelled as the root as built; non-canonical array index tokens are not generated."),
 }
 
 NOT_YET = {}
